@@ -96,6 +96,9 @@ CASES = [
     ("table: a multiline table formats every field under the table's own ignore state", "src/formatters/table.rs", "        let (formatted_field, mut trailing_trivia) = formatter(&ctx, field, table_type, shape);", "        let (formatted_field, mut trailing_trivia) = formatter(&Context { formatting_disabled: false, ..ctx }, field, table_type, shape);", "table", "default", "undecided"),
     ("table: a one-line table drops its last field", "src/formatters/table.rs", "        fields.push(Pair::new(formatted_field, formatted_punctuation))\n    }\n\n    (braces, fields)\n}\n\n/// Expands a table", "        if formatted_punctuation.is_some() {\n            fields.push(Pair::new(formatted_field, formatted_punctuation))\n        }\n    }\n\n    (braces, fields)\n}\n\n/// Expands a table", "table", "default", "C08.table_loop"),
     ("table: a table without fields that should expand is laid out as empty, one with fields never", "src/formatters/table.rs", "        None => match should_expand(ctx, table_constructor) {\n            true => TableType::MultiLine,\n            false => TableType::Empty,\n        },", "        None => TableType::Empty,", "table", "default", "ok"),
+    ("assignment: values that fit their line are dropped from a multi-line list", "src/formatters/assignment.rs", "                    // Add the pair as it is\n                    output_expr.push(formatted);", "                    // Add the pair as it is", "assign", "default", "C02.assignment_rehang_loop"),
+    ("assignment: the hanging candidate is built from the first value only but used for the whole list", "src/formatters/assignment.rs", "    if expressions.len() > 1 {\n", "    if expressions.len() > 2 {\n", "assign", "default", "attempt_assignment_tactics"),
+    ("harmless: the one-line candidate is preferred whenever it fits", "src/formatters/assignment.rs", "            if expression.has_inline_comments()\n                || hanging_shape.used_width() < formatting_shape.used_width()", "            if expression.has_inline_comments()\n                || formatting_shape.used_width() >= hanging_shape.used_width()", "assign", "default", "ok"),
     # a predicate moved into a new helper next to the function: the helper is inlined (gen.InlineHelper) and verified as part of the caller
     ("helper: the sugar decision moved into a helper that forgets the Input exception", FU, [FA_DOC, FA_STR, FA_TAB], [HELPER_BAD + FA_DOC, FA_STR_H, FA_TAB_H], "args", "default", "C11.input_keeps_form"),
     ("harmless: the sugar decision moved into a helper (with a binding and an early return)", FU, [FA_DOC, FA_STR, FA_TAB], [HELPER_OK + FA_DOC, FA_STR_H, FA_TAB_H], "args", "default", "ok"),
